@@ -48,7 +48,7 @@ theorem no_exit_only_if_work (hr : Reach d itw s) (hs : step s l = .ok s' evs) {
   all_goals simp_all [Next.pc, running]
 
 /-- **exit_iff_no_work (⇐, cancel).**  EVENT_CANCEL always makes the callback decide EXIT. -/
-theorem cancel_exits {w c : Nat} (hl : s.driver = .start ∨ s.last.isSome = true)
+theorem cancel_exits {w c : Nat} (hl : s.driver = .start ∨ (s.last.isSome = true ∧ s.set.isSome = true))
     (hs : step s (.call Limits.eventCancel w c) = .ok s' evs) :
     s'.pc = .dropCancelWake ∧ s'.ev0 = Limits.eventCancel := by
   step_split hs
@@ -162,16 +162,17 @@ theorem tasks_ready_iff_empty {sys sys' : Exec.Sys} {t : Nat} {empty : Bool}
     Exec.NoFutures sys' t ∧ (sys.build.spawn = true → sys'.spawned = []) :=
   Exec.tasksPollNext_ready h
 
-/-- **legal_steps_never_panic (partial).**  From every state reachable by legal labels, every step that
+/-- **legal_steps_never_panic.**  From every state reachable by legal labels, every step that
 is enabled — right program point; host and user code keep their contracts, see `Enabled` in
 `Proofs/Task.lean` — succeeds: none of the executor's `unwrap()`s, `assert!`s and `unreachable!()`s
 (`waitables.remove(&w).unwrap()`, `waitable_set…unwrap()`, `assert!(me.tasks.is_empty())`,
 `NonZeroU32::new(..).unwrap()`, `assert_eq!(rc, BLOCKED)`, …) can fire.
-PARTIAL: `Enabled` excludes exactly the two situations in which the current code does panic on a legal
-schedule — `block_on` resuming while no waitable set exists (`block_on_yield_full_false` below) and a wake
-of a task left in state SLEEPING by a cancellation (`Props.C23.wake_after_exit_full_false`) — and the two
-documented panics of builds without the inter-task-wakeup feature. -/
-theorem legal_steps_never_panic_partial (hr : ReachL d itw s) (he : Enabled s l) : ∃ s' evs, step s l = .ok s' evs := by
+`Enabled` contains only contracts of the host and of user code, among them the two DOCUMENTED limitations of
+builds without the inter-task-wakeup feature (a task must not sleep with nothing registered; nobody may
+wake a sleeping task).  The two situations in which the code used to panic on a legal schedule — `block_on`
+resuming after YIELD without a waitable set, and a wake of a task left asleep by a cancellation — were
+repaired in /repo (`block_on_resumes` below, `Props.C23.wake_after_exit_is_noop`) and are no longer excluded. -/
+theorem legal_steps_never_panic (hr : ReachL d itw s) (he : Enabled s l) : ∃ s' evs, step s l = .ok s' evs := by
   cases h : step s l with
   | ok s' evs => exact ⟨s', evs, rfl⟩
   | panic m e => exact absurd h (fun h => never_panic (reach_inv hr.reach) (reachL_invM hr) he h)
@@ -179,7 +180,7 @@ theorem legal_steps_never_panic_partial (hr : ReachL d itw s) (he : Enabled s l)
 /-- the preconditions of `Enabled` that speak about the past are established by the preceding legal label:
 an event for a member of the set is what `deliver` gets; `poll_next`'s consistent answer is what `decide` sees -/
 theorem enabled_history :
-    (∀ e w c, step s (.call e w c) = .ok s' evs → (s.driver = .start ∨ s.last.isSome = true) →
+    (∀ e w c, step s (.call e w c) = .ok s' evs → (s.driver = .start ∨ (s.last.isSome = true ∧ s.set.isSome = true)) →
       e ≠ Limits.eventNone → e ≠ Limits.eventCancel → w ∈ s.members →
       ∃ n, s'.pc = .deliver w c n ∧ w ∈ s'.members) ∧
     (∀ r, step s (.pollDone r r) = .ok s' evs → s'.pc = .afterPoll s'.tasksEmpty) := by
@@ -200,7 +201,7 @@ wakes / unregistrations are further enabled labels in between). -/
 theorem exit_reaches_gone (hr : ReachL d itw s) (hp : s.pc = .dropCancelWake) (ans : Nat) :
     ∃ sG, (run s [.cancelRead ans, .dropTasksDone, .tau] = some sG ∨ run s [.cancelRead ans, .tau] = some sG) ∧
       sG.pc = .gone ∧ sG.drops = 1 ∧ sG.last = some .exit := by
-  obtain ⟨s1, e1, h1⟩ := legal_steps_never_panic_partial hr (l := .cancelRead ans) (Or.inr hp)
+  obtain ⟨s1, e1, h1⟩ := legal_steps_never_panic hr (l := .cancelRead ans) (Or.inr hp)
   have hr1 : ReachL d itw s1 := ReachL.step (l := .cancelRead ans) hr trivial h1
   have hpc : s1.pc = .dropTasks ∨ s1.pc = .dropFields := by
     have h1' := h1
@@ -210,7 +211,7 @@ theorem exit_reaches_gone (hr : ReachL d itw s) (hp : s.pc = .dropCancelWake) (a
   have fin : ∀ s2, ReachL d itw s2 → s2.pc = .dropFields →
       ∃ sG, run s2 [.tau] = some sG ∧ sG.pc = .gone ∧ sG.drops = 1 ∧ sG.last = some .exit := by
     intro s2 hr2 hp2
-    obtain ⟨s3, e3, h3⟩ := legal_steps_never_panic_partial hr2 (l := .tau) (Or.inr (Or.inr hp2))
+    obtain ⟨s3, e3, h3⟩ := legal_steps_never_panic hr2 (l := .tau) (Or.inr (Or.inr hp2))
     have hi3 := reach_inv (ReachL.step (l := .tau) hr2 trivial h3).reach
     have hg : s3.pc = .gone := by
       have h3' := h3
@@ -220,7 +221,7 @@ theorem exit_reaches_gone (hr : ReachL d itw s) (hp : s.pc = .dropCancelWake) (a
     refine ⟨s3, by simp [run, h3], hg, ?_, hi3.lastGone hg⟩
     rw [hi3.drops]; simp [hg, dropped, b2n]
   rcases hpc with hp1 | hp1
-  · obtain ⟨s2, e2, h2⟩ := legal_steps_never_panic_partial hr1 (l := .dropTasksDone) hp1
+  · obtain ⟨s2, e2, h2⟩ := legal_steps_never_panic hr1 (l := .dropTasksDone) hp1
     have hp2 : s2.pc = .dropFields := by
       have h2' := h2
       step_split h2'
@@ -270,45 +271,64 @@ theorem callback_code_encoding (c : CbCode) (hb : ∀ x, c = .wait x → x < 2 ^
     have h5 : (2 + x * 16) / 16 = x := by omega
     simp [h3, h4, h5]
 
-/-! ## `block_on` and YIELD: the full statement is false of the current code
+/-! ## `block_on` resumes after every answer
 
-Full-strength statement (properties.jsonl quantifies over "both start_task and block_on drivers" and task
-bodies that yield): `block_on` resumes the task after every answer —
+Until the `fix:` commit in /repo this was false for `CallbackCode::Yield`: `block_on` evaluated
+`waitable_set…as_ref().unwrap().poll()` although the set is created lazily by the first
+`waitable_register`, so `block_on(async { yield_async().await })` panicked.  Now a YIELD without a set is
+answered by polling the future again (there cannot be an event), and a WAIT always has a set. -/
 
-    ∀ s, Reach .block itw s → s.pc = .idle → s.last = some .yield →
-      ∀ e w c, e ≤ EVENT_CANCEL → ∃ s' evs, step s (.call e w c) = .ok s' evs
+theorem step_driver {s s' : St} {l : Task.Label} {evs : List Ev} (h : step s l = .ok s' evs) : s'.driver = s.driver := by
+  cases l <;> step_split h
+  all_goals (obtain ⟨hq, _⟩ := h; subst hq; rfl)
 
-is FALSE: for `CallbackCode::Yield`, `block_on` evaluates `state.shared.waitable_set…as_ref().unwrap().poll()`,
-but the waitable set is created lazily by the first `waitable_register`; a future that yields
-(`yield_async`, or any wake of its own waker followed by `Pending`) before anything was registered makes
-`block_on` panic with "called `Option::unwrap()` on a `None` value" (async_support.rs, `block_on`, arm
-`CallbackCode::Yield`).  Witness: `block_on(async { yield_async().await })`.  The `_partial` form has the
-exact extra hypothesis (a waitable set exists).  Known-finding class `block-on-yield-without-waitable-set`. -/
+theorem reach_driver {d : Driver} {itw : Bool} {s : St} (hr : Reach d itw s) : s.driver = d := by
+  induction hr with
+  | init => simp [St.init]
+  | step _ hs ih => rw [step_driver hs]; exact ih
 
-theorem block_on_resumes_partial (hd : s.driver = .block) (hp : s.pc = .idle)
-    (hl : s.last = some .yield ∨ ∃ x, s.last = some (.wait x)) (hset : s.set.isSome = true)
+/-- **block_on resumes.**  After WAIT or YIELD, whatever event (≤ EVENT_CANCEL) the task's set produces,
+`block_on`'s next call into the task does not panic. -/
+theorem block_on_resumes (hr : Reach .block itw s) (hp : s.pc = .idle)
     (e w c : Nat) (he : e ≤ Limits.eventCancel) : ∃ s' evs, step s (.call e w c) = .ok s' evs := by
-  cases hs : s.set with
-  | none => simp [hs] at hset
-  | some x =>
-    rcases hl with hl | ⟨y, hl⟩
-    all_goals
-      simp only [step, hp, hd, hl, hs, Step.emit, bind_ok, enter, pre_ite, pre_ok, pre_panic]
-      split
-      · exact ⟨_, _, rfl⟩
-      · split
-        · simp only [Limits.eventCancel] at *; omega
-        · split <;> exact ⟨_, _, rfl⟩
+  have inv := reach_inv hr
+  have hd : s.driver = .block := reach_driver hr
+  have hlw := inv.lastWait
+  have hle := inv.lastIdle (by simp [hp])
+  cases hl : s.last with
+  | none =>
+    simp only [step, hp, hd, hl, enter]
+    simp
+  | some code =>
+    cases code with
+    | exit => exact absurd hl hle
+    | yield =>
+      cases hs : s.set with
+      | none => simp only [step, hp, hd, hl, hs, enter]; simp
+      | some x =>
+        simp only [step, hp, hd, hl, hs, Step.emit, bind_ok, enter, pre_ite, pre_ok, pre_panic]
+        split
+        · exact ⟨_, _, rfl⟩
+        · split
+          · simp only [Limits.eventCancel] at *; omega
+          · split <;> exact ⟨_, _, rfl⟩
+    | wait y =>
+      cases hs : s.set with
+      | none => have := hlw y hl; simp [hs] at this
+      | some x =>
+        simp only [step, hp, hd, hl, hs, Step.emit, bind_ok, enter, pre_ite, pre_ok, pre_panic]
+        split
+        · exact ⟨_, _, rfl⟩
+        · split
+          · simp only [Limits.eventCancel] at *; omega
+          · split <;> exact ⟨_, _, rfl⟩
 
-theorem block_on_yield_full_false :
-    ¬ ∀ s, Reach .block false s → s.pc = .idle → s.last = some .yield →
-        ∀ e w c, e ≤ Limits.eventCancel → ∃ s' evs, step s (.call e w c) = .ok s' evs := by
-  intro hall
-  have hrun : ∃ sW, run (St.init .block false) [.call 0 0 0, .cancelRead 0, .tau, .wake 0, .pollDone false false, .decide 0 0 0]
-      = some sW ∧ sW.pc = .idle ∧ sW.last = some .yield ∧ sW.driver = .block ∧ sW.set = none := ⟨_, rfl, rfl, rfl, rfl, rfl⟩
-  obtain ⟨sW, h1, h2, h3, h4, h5⟩ := hrun
-  obtain ⟨s', evs, hs⟩ := hall sW (run_reach _ Reach.init h1) h2 h3 0 0 0 (by simp)
-  simp [step, h2, h3, h4, h5] at hs
+/-- the former counterexample (repaired): `block_on(async { yield_async().await })` — the future wakes itself,
+YIELD is answered, no waitable set exists, and the next call polls again -/
+theorem block_on_yield_without_set_polls_again :
+    ∃ sW, run (St.init .block false) [.call 0 0 0, .cancelRead 0, .tau, .wake 0, .pollDone false false, .decide 0 0 0]
+        = some sW ∧ sW.last = some .yield ∧ sW.set = none ∧
+      ∃ s', step sW (.call 0 0 0) = .ok s' [] ∧ s'.pc = .cancelWake := ⟨_, rfl, rfl, rfl, _, rfl, rfl⟩
 
 /-! ## Non-vacuity -/
 
